@@ -37,7 +37,7 @@ def big_graph(n_classes):
 def cases(draw, tier):
     size = draw(st.sampled_from(["small"] * 38 + ["big1", "big2"]))
     if size == "small":
-        g = draw(gg.general(unicode_iris=draw(st.integers(0, 3)) == 0))
+        g = draw(gg.general(unicode_iris=draw(st.integers(0, 3)) == 0, quirks=draw(gg.quirk_set(one_in=4))))
     else:
         g = {"big": 800 if size == "big1" else 1500}
     cfg = {}
